@@ -92,16 +92,30 @@ def correspondence(ctx, model_ok, tmp):
     for h in range(n_hist):
         # fresh datasets + collection per history
         refs = []
-        for r in RUNS:
+        coll = f"calib_{h}"
+        for n_run, r in enumerate(RUNS):
+            if n_run == 2:
+                # half of the runs are registered before the CALIBRATION collection and half after it, so that rows of a
+                # lower-priority collection come back from the database both before and after the calibration rows
+                reg.registerCollection(coll, CollectionType.CALIBRATION)
             run = f"{r}_{h}"
             reg.registerRun(run)
             for k in KEYS:
                 (ref,) = reg.insertDatasets(dt, [{"instrument": "I", "detector": k}], run=run)
                 refs.append((k, ref))
-        coll = f"calib_{h}"
-        reg.registerCollection(coll, CollectionType.CALIBRATION)
+        # a second, lower-priority CALIBRATION collection in which one dedicated dataset per data ID is valid at all times;
+        # registered before the main one in even histories and after it in odd ones (row order from the database)
+        collB = f"{'a' if h % 2 == 0 else 'z'}calibB_{h}"
+        reg.registerCollection(collB, CollectionType.CALIBRATION)
+        reg.registerRun(f"rB_{h}")
+        fbB = {}
+        for k in KEYS:
+            (ref,) = reg.insertDatasets(dt, [{"instrument": "I", "detector": k}], run=f"rB_{h}")
+            refs.append((k, ref))
+            fbB[k] = len(refs) - 1
+        reg.certify(collB, [refs[i][1] for i in fbB.values()], mk(0, MAX))
         valid = {k: {t: set() for t in P} for k in KEYS}  # oracle
-        alive = set(range(len(refs)))
+        alive = set(range(len(refs))) - set(fbB.values())
         req.append("cal new")
         impl.append("ok")
         ops_log = []
@@ -224,20 +238,34 @@ def correspondence(ctx, model_ok, tmp):
             # ---- observe: lookups
             for _ in range(4):
                 k = rng.choice(KEYS)
-                q = rand_ts() if rng.random() < 0.7 else mk(*(lambda x: (x, x + 1))(rng.choice(P)))
+                u_ = rng.random()
+                q = rand_ts() if u_ < 0.55 else (mk(0, MAX) if u_ < 0.75 else mk(*(lambda x: (x, x + 1))(rng.choice(P))))
                 outs = []
+                # half of the lookups use a two-collection search path: the CALIBRATION collection first, then a RUN
+                # holding a dataset of that data ID (a match further down the path must never mask an ambiguity)
+                fallback = None
+                path = [coll]
+                u2 = rng.random()
+                if u2 < 0.3:
+                    cands = [i for i in sorted(alive) if refs[i][0] == k]
+                    if cands:
+                        fallback = rng.choice(cands)
+                        path = [coll, refs[fallback][1].run]
+                elif u2 < 0.6:
+                    fallback = fbB[k]
+                    path = [coll, collB]
                 for api in ("registry", "butler"):
                     try:
                         if api == "registry":
-                            ref = reg.findDataset(dt, instrument="I", detector=k, collections=[coll], timespan=q)
+                            ref = reg.findDataset(dt, instrument="I", detector=k, collections=path, timespan=q)
                         else:
-                            ref = b.find_dataset(dt, instrument="I", detector=k, collections=[coll], timespan=q)
+                            ref = b.find_dataset(dt, instrument="I", detector=k, collections=path, timespan=q)
                         outs.append("none" if ref is None else f"one {id2i[ref.id]}")
                     except CalibrationLookupError:
                         outs.append("ambiguous")
                     except Exception as e:
                         outs.append(f"err INTERNAL:{type(e).__name__}")
-                req.append(f"cal lookup {k} {enc_ts(q)}")
+                req.append(f"cal lookup {k} {enc_ts(q)}" + ("" if fallback is None else f" {fallback}"))
                 impl.append(outs[0])
                 ctx.evaluations += 1
                 qb, qe = q.nsec
@@ -247,7 +275,8 @@ def correspondence(ctx, model_ok, tmp):
                         D |= valid[k][t]
                 for api, out in zip(("Registry.findDataset", "Butler.find_dataset"), outs):
                     okk = (
-                        (len(D) == 0 and out == "none")
+                        # (a RUN further down the path behaves as valid at every instant: it overlaps any non-empty timespan)
+                        (len(D) == 0 and out == ("none" if (fallback is None or qb >= qe) else f"one {fallback}"))
                         or (len(D) == 1 and out in (f"one {next(iter(D))}", "ambiguous"))
                         or (len(D) >= 2 and out == "ambiguous")
                     )
@@ -262,6 +291,8 @@ def correspondence(ctx, model_ok, tmp):
             ctx.count(op[0])
         ctx.sample(ops_log, cap=3)
 
+    big_batch(ctx, b, reg, dt, mk, viol)
+
     if model_ok:
         got = core.driver(req)
         nd = 0
@@ -274,6 +305,51 @@ def correspondence(ctx, model_ok, tmp):
         ctx.extra["correspondence_disagreements"] = nd
     else:
         ctx.notes.append("model not built: correspondence skipped, implementation searched with the interval-map oracle only")
+
+
+def big_batch(ctx, b, reg, dt, mk, viol):
+    """Batches larger than every internal chunk size (row chunks, constant-row limits, temporary-table thresholds):
+    certify 1300 datasets in one call, then decertify the middle of the range for 1250 of the data IDs in one call."""
+    from lsst.daf.butler import CollectionType
+
+    N = 1300
+    reg.insertDimensionData("instrument", {"name": "BIG"})
+    reg.insertDimensionData("detector", *[{"instrument": "BIG", "id": i, "full_name": f"b{i}"} for i in range(N)])
+    reg.registerRun("big_run")
+    refs = reg.insertDatasets(dt, [{"instrument": "BIG", "detector": i} for i in range(N)], run="big_run")
+    reg.registerCollection("big_calib", CollectionType.CALIBRATION)
+    reg.certify("big_calib", refs, mk(100, 200))
+    sel = list(range(25, N - 25))
+    reg.decertify("big_calib", dt, mk(120, 150), dataIds=[{"instrument": "BIG", "detector": i} for i in sel])
+    rows = {}
+    for a in reg.queryDatasetAssociations(dt, collections=["big_calib"]):
+        rows.setdefault(a.ref.dataId["detector"], []).append(a.timespan.nsec)
+    ctx.evaluations += 1
+    ctx.count("big-batch")
+    bad = []
+    for i in range(N):
+        want = [(100, 120), (150, 200)] if i in set(sel) else [(100, 200)]
+        if sorted(rows.get(i, [])) != want:
+            bad.append((i, sorted(rows.get(i, []))))
+    if bad:
+        viol(f"certify of {N} datasets + decertify [120,150) for {len(sel)} data IDs in one call: {len(bad)} data IDs have wrong validity "
+             f"ranges, e.g. detector {bad[0][0]} -> {bad[0][1]}", "big-batch-decertify", {"kind": "big-batch", "n": N, "wrong": bad[:10]})
+    # a second certify overlapping only a few of them (placed anywhere in the batch) must be refused as a whole
+    refs2 = reg.insertDatasets(dt, [{"instrument": "BIG", "detector": i} for i in range(N)], run=_mkrun(reg, "big_run2"))
+    from lsst.daf.butler.registry import ConflictingDefinitionError
+    reg.decertify("big_calib", dt, mk(100, 200), dataIds=[{"instrument": "BIG", "detector": i} for i in range(N) if i % 100 != 7])
+    try:
+        reg.certify("big_calib", refs2, mk(110, 115))
+        viol(f"certify of {N} datasets accepted although {N // 100} of their data IDs already have an overlapping validity range",
+             "big-batch-certify", {"kind": "big-batch", "n": N})
+    except ConflictingDefinitionError:
+        pass
+    ctx.evaluations += 1
+
+
+def _mkrun(reg, name):
+    reg.registerRun(name)
+    return name
 
 
 def replay(ctx, content):
